@@ -1,7 +1,7 @@
 """C01 — message encode/decode round trip preserves every field (symmetry conditions)."""
 from ..facts import Program, AnalysisBroken, WITNESS_FIELDS
 from .. import q
-from . import c08
+from . import c08, c09
 
 CLAIM = {
     'text': 'Symmetry conditions without which decode cannot invert encode, whatever the values: the five consumers of a repeating-group '
@@ -74,6 +74,11 @@ def run(ctx):
             ctx.check(reads, 'R01.2', r + '#parse', c.loc, 'the text constructor reads its argument', '%s(const char*) ignores its argument' % r)
     # ---------------- R01.3
     c08.sign_rule(ctx, prog, 'R01.3')
+    # R01.5 date/time fields: text -> ticks uses time_to_epoch, ticks -> text uses gmtime_r; the two are inverse only if the leap-day
+    # correction of time_to_epoch is the calendar's (same rule as C09 R09.4)
+    te = prog.fn1('FIX8::time_to_epoch')
+    ctx.saw(te)
+    c09.leap_rule(ctx, prog, te, 'R01.5')
     # ---------------- R01.4
     fl = [f for f in prog.all_functions() if f.kind == 'ctor' and (f.rec or '').startswith('FIX8::Field<double,') and f.tmpl == 'inst' and
           (f.sig.startswith('void (const char *') or f.sig.startswith('void (const FIX8::f8String &'))]
@@ -89,3 +94,4 @@ def run(ctx):
                   'Field<fp_type,N>(text) sets _precision to the constant `%s`: text with more fraction digits cannot re-encode to identical bytes (44=1.2345 → 44=1.23)' % pi[0].text())
     ctx.floor('R01.1', 5)
     ctx.floor('R01.2', 24)
+    ctx.floor('R01.5', 2)
